@@ -381,6 +381,8 @@ def run_check(modname, tier, seed):
         violations.sort(key=lambda f: (len(jdump(f["case"])), jdump(f["case"])))
         seen = set()
         for f in violations:
+            if len(seen) >= 5:  # every shard stops at its first failure; a handful of replay files is enough
+                break
             path = write_replay(mod, f, seed, tier)
             if path in seen:
                 continue
